@@ -58,20 +58,48 @@ var chain = det("chain", 32)
 const sampleTx = "0100000000010154dcba4a0f6e3e8b1ba3c4b8f3f4d8b0e6a8b9c0d1e2f30415263748596a7b8c0000000000ffffffff0280969800000000001600145f4a1b2c3d4e5f60718293a4b5c6d7e8f9010203e0e1f505000000001976a9145f4a1b2c3d4e5f60718293a4b5c6d7e8f901020388ac0247304402201111111111111111111111111111111111111111111111111111111111111111022022222222222222222222222222222222222222222222222222222222222222220121031b84c5567b126440995d3ed5aaba0565d71e1834604819ff9c17f5e9d5dd078f00000000"
 
 type recorder struct {
-	mu  sync.Mutex
-	ids []int
+	mu      sync.Mutex
+	ids     []int
+	tags    map[int]int64  // request id -> tag of the logical request it was issued to
+	refused map[int64]bool // logical requests already turned away once
+	clashes []string
 }
+
+// every request of the rig carries a tag (its first parameter) naming the logical request: a retry sends
+// the same tag again
+var reqTag int64
+
+func tag() int64 { return atomic.AddInt64(&reqTag, 1) }
 
 func (rt *recorder) RoundTrip(req *http.Request) (*http.Response, error) {
 	body, _ := io.ReadAll(req.Body)
 	var m struct {
-		ID     int    `json:"id"`
-		Method string `json:"method"`
+		ID     int               `json:"id"`
+		Method string            `json:"method"`
+		Params []json.RawMessage `json:"params"`
 	}
 	json.Unmarshal(body, &m)
+	t := int64(-1)
+	if len(m.Params) > 0 {
+		json.Unmarshal(m.Params[0], &t)
+	}
 	rt.mu.Lock()
 	rt.ids = append(rt.ids, m.ID)
+	if rt.tags == nil {
+		rt.tags, rt.refused = map[int]int64{}, map[int64]bool{}
+	}
+	if old, ok := rt.tags[m.ID]; ok && old != t {
+		rt.clashes = append(rt.clashes, fmt.Sprintf("request id %d was issued to two different requests", m.ID))
+	}
+	rt.tags[m.ID] = t
+	turnAway := strings.HasPrefix(m.Method, "busy") && !rt.refused[t]
+	if turnAway {
+		rt.refused[t] = true
+	}
 	rt.mu.Unlock()
+	if turnAway { // bitcoind's overload reply: the library retries the request
+		return &http.Response{StatusCode: 503, Body: io.NopCloser(strings.NewReader("Work queue depth exceeded")), Header: http.Header{}, Request: req}, nil
+	}
 	resp := fmt.Sprintf(`{"result":"%s","error":null,"id":%d}`, m.Method, m.ID)
 	return &http.Response{StatusCode: 200, Body: io.NopCloser(bytes.NewReader([]byte(resp))), Header: http.Header{}, Request: req}, nil
 }
@@ -178,7 +206,7 @@ var actions = map[string]func() string{
 	},
 	"rpcstorm": func() string {
 		for i := 0; i < 40; i++ {
-			if _, err := conn.Request("getblockcount"); err != nil {
+			if _, err := conn.Request("getblockcount", tag()); err != nil {
 				return "err " + err.Error()
 			}
 		}
@@ -189,12 +217,18 @@ var actions = map[string]func() string{
 	"rpcbad": func() string {
 		_, e1 := conn.Request("estimatesmartfee", math.NaN())
 		_, e2 := conn.Request("x", make(chan int))
-		r3, e3 := conn.Request("getblockcount")
+		r3, e3 := conn.Request("getblockcount", tag())
 		return fmt.Sprint(e1 != nil, e2 != nil, r3, e3)
 	},
+	// the node turns the first attempt of this request away ("Work queue depth exceeded"); the library
+	// retries it while the other goroutines' requests are in flight on the shared connection
+	"rpcbusy": func() string {
+		r1, e1 := conn.Request("busygetblockcount", tag())
+		return fmt.Sprint(r1, e1)
+	},
 	"rpc": func() string {
-		r1, e1 := conn.Request("getblockcount")
-		r2, e2 := conn.Request("getbestblockhash")
+		r1, e1 := conn.Request("getblockcount", tag())
+		r2, e2 := conn.Request("getbestblockhash", tag())
 		return fmt.Sprint(r1, e1, r2, e2)
 	},
 }
@@ -365,5 +399,8 @@ func main() {
 	ids := append([]int{}, rec.ids...)
 	sort.Ints(ids)
 	fmt.Printf("ids\t%v\n", ids)
+	for _, c := range rec.clashes {
+		fmt.Printf("clash\t%s\n", c)
+	}
 	os.Stdout.Sync()
 }
